@@ -195,4 +195,86 @@ theorem exec_logging_noop {S V : Type} (I : Interp S V) (seed : Nat) (p : Prog) 
     | restore g s => simp [ho, Op.moves] at hmv
     | unknown g => simp [ho, Op.moves] at hmv
 
+/-- on the plain fragment the analysis accepts exactly the programs in which every draw comes after a seeding of its generator -/
+theorem firstBadOps_plain_iff (os : List Op) :
+    ∀ (k : Known) (i : Nat), (∀ o ∈ os, o.plain = true) →
+      (firstBadOps k i os = none ↔
+        ∀ (idx g kd n : Nat), os[idx]? = some (Op.draw g kd n) → k.gens g = true ∨ ∃ j, j < idx ∧ ∃ v, os[j]? = some (Op.seed g v)) := by
+  induction os with
+  | nil => intro k i _; simp [firstBadOps]
+  | cons o os ih =>
+    intro k i hp
+    have hp' : ∀ o ∈ os, o.plain = true := fun o h => hp o (List.mem_cons_of_mem _ h)
+    have ho := hp o (List.mem_cons_self ..)
+    cases o with
+    | seed g' v' =>
+      simp only [firstBadOps, Known.after]
+      rw [ih _ (i + 1) hp']
+      constructor
+      · intro h idx g kd n hd
+        cases idx with
+        | zero => simp at hd
+        | succ idx =>
+          simp only [List.getElem?_cons_succ] at hd
+          rcases h idx g kd n hd with h1 | ⟨j, hj, v, hv⟩
+          · by_cases hg : g = g'
+            · subst hg; exact Or.inr ⟨0, by omega, v', by simp⟩
+            · left; simpa [upd, hg] using h1
+          · exact Or.inr ⟨j + 1, by omega, v, by simpa using hv⟩
+      · intro h idx g kd n hd
+        rcases h (idx + 1) g kd n (by simpa using hd) with h1 | ⟨j, hj, v, hv⟩
+        · left; simp [upd, h1]
+        · cases j with
+          | zero =>
+            simp at hv
+            left; simp [upd, hv.1]
+          | succ j => exact Or.inr ⟨j, by omega, v, by simpa using hv⟩
+    | draw g' kd' n' =>
+      simp only [firstBadOps, Known.after]
+      by_cases hk : k.gens g' = true
+      · simp only [hk, ↓reduceIte]
+        rw [ih _ (i + 1) hp']
+        constructor
+        · intro h idx g kd n hd
+          cases idx with
+          | zero => simp at hd; left; rw [← hd.1]; exact hk
+          | succ idx =>
+            simp only [List.getElem?_cons_succ] at hd
+            rcases h idx g kd n hd with h1 | ⟨j, hj, v, hv⟩
+            · exact Or.inl h1
+            · exact Or.inr ⟨j + 1, by omega, v, by simpa using hv⟩
+        · intro h idx g kd n hd
+          rcases h (idx + 1) g kd n (by simpa using hd) with h1 | ⟨j, hj, v, hv⟩
+          · exact Or.inl h1
+          · cases j with
+            | zero => simp at hv
+            | succ j => exact Or.inr ⟨j, by omega, v, by simpa using hv⟩
+      · simp only [hk, Bool.false_eq_true, ↓reduceIte, reduceCtorEq, false_iff]
+        intro h
+        rcases h 0 g' kd' n' (by simp) with h1 | ⟨j, hj, _⟩
+        · exact hk h1
+        · omega
+    | note t =>
+      simp only [firstBadOps, Known.after]
+      rw [ih _ (i + 1) hp']
+      constructor
+      · intro h idx g kd n hd
+        cases idx with
+        | zero => simp at hd
+        | succ idx =>
+          simp only [List.getElem?_cons_succ] at hd
+          rcases h idx g kd n hd with h1 | ⟨j, hj, v, hv⟩
+          · exact Or.inl h1
+          · exact Or.inr ⟨j + 1, by omega, v, by simpa using hv⟩
+      · intro h idx g kd n hd
+        rcases h (idx + 1) g kd n (by simpa using hd) with h1 | ⟨j, hj, v, hv⟩
+        · exact Or.inl h1
+        · cases j with
+          | zero => simp at hv
+          | succ j => exact Or.inr ⟨j, by omega, v, by simpa using hv⟩
+    | entropy g => simp [Op.plain] at ho
+    | save g s => simp [Op.plain] at ho
+    | restore g s => simp [Op.plain] at ho
+    | unknown g => simp [Op.plain] at ho
+
 end LeaspyVerif.Draws
